@@ -1550,3 +1550,70 @@ Proof.
     fn_freeze_clear, fn_freeze_clear_nr, fn_freeze_at_time, fn_freeze_at_time_nr, fn_enable_unsol, fn_disable_unsol.
   rewrite A, A0, A1, A2, A3, A4, A5, A6, A7, A8, A9, A10, A11, A12, A13, A14, A15. reflexivity.
 Qed.
+
+(* ---------- more detail for the correlation of retransmissions ---------------------------------- *)
+
+Lemma to_treq_request cfg from d ctl fn obj :
+  to_treq cfg from d = TqRequest ctl fn obj -> d = DOk ctl fn RvOk obj.
+Proof.
+  unfold to_treq. destruct (negb (o_any_master cfg) && negb (from =? o_master cfg)); [discriminate|].
+  destruct d as [|sq code|ctl0 fn0 [|] obj0]; try discriminate. intros H; inversion H; reflexivity.
+Qed.
+
+(* what each classification of a unicast fragment says about it *)
+Lemma classify_unicast_cases s bytes ctl fn obj :
+  match classify s None bytes ctl fn obj with
+  | FtMalformed iin2 => (fn =? fn_confirm) = false /\ obj = ObjErr iin2
+  | FtNewRead hdrs rh => (fn =? fn_confirm) = false /\ (fn =? fn_read) = true /\ obj = ObjOk hdrs rh
+  | FtRepeatRead last hdrs rh => (fn =? fn_confirm) = false /\ (fn =? fn_read) = true /\ obj = ObjOk hdrs rh
+  | FtNewNonRead hdrs => (fn =? fn_confirm) = false /\ (fn =? fn_read) = false /\ exists rh, obj = ObjOk hdrs rh
+  | FtRepeatNonRead last =>
+      (fn =? fn_confirm) = false /\ (fn =? fn_read) = false /\ (exists hdrs rh, obj = ObjOk hdrs rh) /\
+      exists l, s_last s = Some l /\ lr_seq l = ctl_seq ctl /\ lr_bytes l = bytes /\ lr_response l = last
+  | FtBroadcast _ => False
+  | FtSolConfirm _ => (fn =? fn_confirm) = true
+  | FtUnsolConfirm _ => (fn =? fn_confirm) = true
+  end.
+Proof.
+  unfold classify. destruct (fn =? fn_confirm) eqn:E0; [destruct (ctl_uns ctl); reflexivity|].
+  destruct obj as [e|hdrs rh]; [auto|].
+  destruct (s_last s) as [l|].
+  - destruct ((lr_seq l =? ctl_seq ctl) && bytes_eqb (lr_bytes l) bytes) eqn:Erep; destruct (fn =? fn_read) eqn:E1; eauto.
+    apply andb_true_iff in Erep. destruct Erep as [R1 R2]. apply N.eqb_eq in R1. apply bytes_eqb_eq in R2.
+    split; [reflexivity|]. split; [reflexivity|]. split; [eauto|]. exists l. auto.
+  - destruct (fn =? fn_read) eqn:E1; eauto.
+Qed.
+
+Lemma hfi_finish_state cfg from seq bytes fn s1 resp se rep o1 s' o :
+  hfi_finish cfg from seq bytes fn s1 resp se rep o1 = (s', o) ->
+  exists ropt se',
+    s_last s' = mk_last seq bytes ropt se' /\
+    (resp = None -> ropt = None) /\
+    (forall r, resp = Some r -> exists r', ropt = Some r' /\ (if rep then r' = r else sent_of r r')) /\
+    (s_control s' = s_control s1 \/
+     exists x dl, s_control s' = CSolWait x dl RStep2 /\ (se = Some x \/ se_fin x = true)).
+Proof.
+  destruct resp as [r|].
+  2:{ rewrite hfi_finish_none. intros H; inversion H; subst. exists None, se. cbn.
+      split; [reflexivity|]. split; [reflexivity|]. split; [discriminate|]. left. reflexivity. }
+  unfold hfi_finish. destruct rep.
+  - set (se' := match se with None => if ctl_con (r_ctl r) then Some {| se_ecsn := ctl_seq (r_ctl r); se_fin := true |} else None | x => x end).
+    assert (Hse : forall x, se' = Some x -> se = Some x \/ se_fin x = true).
+    { subst se'. intros x Hx. destruct se as [y|]; [left; exact Hx|]. destruct (ctl_con (r_ctl r)); inversion Hx; subst. right; reflexivity. }
+    destruct se' as [x|] eqn:Ese; intros H; inversion H; subst; clear H; exists (Some r).
+    + exists (Some x). cbn. split; [reflexivity|]. split; [discriminate|].
+      split; [intros r0 Hr; inversion Hr; subst; eauto|]. right. exists x. eexists. split; [reflexivity|auto].
+    + exists None. cbn. split; [reflexivity|]. split; [discriminate|].
+      split; [intros r0 Hr; inversion Hr; subst; eauto|]. left. reflexivity.
+  - destruct (write_solicited s1 from r) as [[s2 r'] o2] eqn:E. apply write_solicited_spec in E.
+    destruct E as (E1 & _ & E4 & E5 & E6 & E7).
+    assert (Hs : sent_of r r') by exact (conj E4 (conj E5 (conj E6 E7))).
+    set (se' := match se with None => if ctl_con (r_ctl r') then Some {| se_ecsn := ctl_seq (r_ctl r'); se_fin := true |} else None | x => x end).
+    assert (Hse : forall x, se' = Some x -> se = Some x \/ se_fin x = true).
+    { subst se'. intros x Hx. destruct se as [y|]; [left; exact Hx|]. destruct (ctl_con (r_ctl r')); inversion Hx; subst. right; reflexivity. }
+    destruct se' as [x|] eqn:Ese; intros H; inversion H; subst; clear H; exists (Some r').
+    + exists (Some x). cbn. split; [reflexivity|]. split; [discriminate|].
+      split; [intros r0 Hr; inversion Hr; subst; eauto|]. right. exists x. eexists. split; [reflexivity|auto].
+    + exists None. cbn. split; [reflexivity|]. split; [discriminate|].
+      split; [intros r0 Hr; inversion Hr; subst; eauto|]. left. destruct E1 as (_ & E1 & _). exact E1.
+Qed.
